@@ -198,7 +198,10 @@ def _shadow_case(job):
     try:
         base = tree_key(lnt, sql)
         for label, (c, p) in {"no-cache": (False, True), "no-prune": (True, False), "neither": (False, False)}.items():
-            if (label == "neither" and rng.random() > 0.1) or (label == "no-prune" and rng.random() > 0.35):
+            if name.endswith("#cmtall"):
+                if label != "no-prune":
+                    continue
+            elif (label == "neither" and rng.random() > 0.1) or (label == "no-prune" and rng.random() > 0.35):
                 continue
             with Shadow(cache=c, prune=p, sample_hints=0.02 if label == "no-cache" else 0, rng=rng) as sh:
                 v = tree_key(lnt, sql)
@@ -273,6 +276,35 @@ def keyword_inputs(rng, dialect, n_random, systematic):
     return out
 
 
+def inject_any_comments(rng, d, sql):
+    from vlib import corpus
+    toks = corpus._tokens(d, sql)
+    bd = [i for i, t in enumerate(toks) if i > 0 and not t.is_type("newline", "comment", "end_of_file") and not toks[i - 1].is_type("comment")]
+    rng.shuffle(bd)
+    pick = set(bd[: rng.randint(1, 4)])
+    out = []
+    for i, t in enumerate(toks):
+        if i in pick:
+            out.append(rng.choice([" /* c */ ", "/* c */", " /* c */", " -- c\n"]))
+        out.append(t.raw)
+    return "".join(out)
+
+
+def saturate_comments(d, sql):
+    """A block comment in front of every comma, closing bracket and clause keyword: every place where a match ends and the
+    token that terminates it follows."""
+    from vlib import corpus
+    toks = corpus._tokens(d, sql)
+    stops = {",", ")", "]", ";"}
+    kws = {"FROM", "WHERE", "AS", "ON", "THEN", "ELSE", "END", "AND", "OR", "GROUP", "ORDER", "HAVING", "LIMIT", "UNION", "JOIN", "USING", "SET", "VALUES", "WHEN"}
+    out = []
+    for i, t in enumerate(toks):
+        if i > 0 and (t.raw in stops or t.raw.upper() in kws) and not toks[i - 1].is_type("comment"):
+            out.append(" /* c */ ")
+        out.append(t.raw)
+    return "".join(out)
+
+
 def shadow_runs(ctx):
     from sqlfluff.core import Linter, FluffConfig
     rng = ctx.rng
@@ -286,6 +318,23 @@ def shadow_runs(ctx):
         if len(t) <= ctx.budget(1500, 3000):
             cases.append((d, f.name, t))
     cases += [(d, n + "#mut", gen.mutate_sql(rng, t)) for (d, n, t) in cases[: ctx.budget(15, 600)]]
+    # comments are legal between any two tokens: the tree must not depend on the optimisations with a comment sitting between a
+    # match and what follows it either
+    for (d, n, t) in list(cases[: ctx.budget(30, 1500)]):
+        if n.endswith("#mut"):
+            continue
+        try:
+            cases.append((d, n + "#cmt", inject_any_comments(rng, d, t)))
+        except Exception:
+            pass
+    # comment-saturated variants of many more (small) fixtures, compared normal vs pruning-off only (two cached parses each)
+    for d, f in files[: ctx.budget(420, 2249)]:
+        try:
+            t = f.read_text(encoding="utf-8")
+            if len(t) <= ctx.budget(1200, 3000):
+                cases.append((d, f.name + "#cmtall", saturate_comments(d, t)))
+        except Exception:
+            pass
     cases += [("ansi", "gen", gen.sql_file(rng)) for _ in range(ctx.budget(25, 500))]
     dialects = sorted({d for d, _ in files})
     syst = ["ansi"] + rng.sample([d for d in dialects if d != "ansi"], 1) if ctx.quick() else dialects
@@ -307,7 +356,7 @@ def shadow_runs(ctx):
         for (nm, ok, extra) in r["contracts"]:
             ctx.contract(nm, ok, dict(case, **extra))
         ctx.count((d, sql), nontrivial=r["has_tree"] and len(sql) > 20, sample={"dialect": d, "file": name} if len(ctx.samples) < 4 else None)
-        ctx.bump("kind_" + name.split("#")[-1] if name in ("gen", "kw") or "#" in name else "kind_fixture")
+        ctx.bump("kind_" + (name.split("#")[-1] if "#" in name else (name if name in ("gen", "kw") else "fixture")))
         if r["base_errs"]:
             ctx.bump("inputs_with_parse_errors")
         for label, same, verrs in r["variants"]:
